@@ -1,11 +1,468 @@
-import VrpModel.Num
+import VrpModel.Cache
+import VrpProofs.Props.C15
+import VrpProofs.Lemmas.Cache
 
 /-!
 # C14 — Queries are pure and never change what later calls return
+
+`CObj` is the object with its caches and flags, `SObj` the cache-free specification (every query answered
+from the instance state alone).  The refinement theorem says the two give the same replies on every call
+history; the corollaries are the two clauses of the property.
 -/
 namespace Vrp.C14
+open Vrp
 
-/-- placeholder until the cache state machine is merged -/
-theorem placeholder_true : True := trivial
+variable {Inst : Type} {S : CacheSpec Inst}
+
+/-- abstraction: forget the caches -/
+def abs (s : CObj S) : SObj S := { inst := s.inst, sol := s.sol, dead := s.dead }
+
+/-- every filled cache holds what the specification computes from the current instance -/
+structure Coherent (s : CObj S) : Prop where
+  vars : ∀ v, s.vars = some v → v = S.vars s.inst
+  obj : ∀ o, s.obj = some o → o = S.obj s.inst (S.vars s.inst)
+  con : ∀ c, s.con = some c → c = S.con s.inst (S.vars s.inst)
+
+/-- the heuristic resets the flags whenever it changes the instance -/
+def ResetsWhenChanged (S : CacheSpec Inst) : Prop :=
+  ∀ I h J sol, S.heur I h = .ok (J, sol) → S.reset I h = false → J = I
+
+def isHeur : COp → Bool
+  | .heur _ => true
+  | _ => false
+
+/-- the same relative to an instance invariant `P` that the heuristic preserves (needed for the sequence-based
+    formulation, whose reset sites are only complete for graphs with unique node names) -/
+def ResetsWhenChangedOn (P : Inst → Prop) (S : CacheSpec Inst) : Prop :=
+  ∀ I h J sol, P I → S.heur I h = .ok (J, sol) → P J ∧ (S.reset I h = false → J = I)
+
+theorem resetsOn_of_resets (hS : ResetsWhenChanged S) : ResetsWhenChangedOn (fun _ => True) S :=
+  fun I h J sol _ hh => ⟨trivial, hS I h J sol hh⟩
+
+/-! ## generic part -/
+
+theorem coherent_init (I : Inst) : Coherent ({ inst := I } : CObj S) :=
+  ⟨by simp, by simp, by simp⟩
+
+theorem ensureVars_spec (s : CObj S) (hc : Coherent s) :
+    s.ensureVars.2 = S.vars s.inst ∧ s.ensureVars.1 = { s with vars := some (S.vars s.inst) } := by
+  unfold CObj.ensureVars
+  cases hv : s.vars with
+  | none => simp
+  | some v =>
+    have := hc.vars v hv
+    subst this
+    cases s; simp_all
+
+/-- the state the heuristic leaves before the final `enumerate_variables()` -/
+def afterHeur (s : CObj S) (h : Rat) (J : Inst) : CObj S :=
+  if S.reset s.inst h then { s with inst := J, vars := none, obj := none, con := none } else { s with inst := J }
+
+theorem cstep_dead (s : CObj S) (op : COp) (hd : s.dead = true) : s.step op = (s, .raised .assert) := by
+  simp [CObj.step, hd]
+theorem cstep_numVars (s : CObj S) (hd : s.dead = false) :
+    s.step .numVars = (s.ensureVars.1, .vars s.ensureVars.2) := by
+  simp [CObj.step, hd]
+theorem cstep_obj_some (s : CObj S) (hd : s.dead = false) (o : S.Obj) (ho : s.obj = some o) :
+    s.step .objective = (s, .obj o) := by
+  simp [CObj.step, hd, ho]
+theorem cstep_obj_none (s : CObj S) (hd : s.dead = false) (ho : s.obj = none) :
+    s.step .objective = ({ s.ensureVars.1 with obj := some (S.obj s.ensureVars.1.inst s.ensureVars.2) },
+      .obj (S.obj s.ensureVars.1.inst s.ensureVars.2)) := by
+  simp [CObj.step, hd, ho]
+theorem cstep_con_some (s : CObj S) (hd : s.dead = false) (o : S.Con) (ho : s.con = some o) :
+    s.step .constraints = (s, .con o) := by
+  simp [CObj.step, hd, ho]
+theorem cstep_con_none (s : CObj S) (hd : s.dead = false) (ho : s.con = none) :
+    s.step .constraints = ({ s.ensureVars.1 with con := some (S.con s.ensureVars.1.inst s.ensureVars.2) },
+      .con (S.con s.ensureVars.1.inst s.ensureVars.2)) := by
+  simp [CObj.step, hd, ho]
+theorem cstep_heur_err (s : CObj S) (hd : s.dead = false) (h : Rat) (e : Err) (hh : S.heur s.inst h = .error e) :
+    s.step (.heur h) = ({ s with dead := true }, .raised e) := by
+  simp [CObj.step, hd, hh]
+theorem cstep_heur_ok (s : CObj S) (hd : s.dead = false) (h : Rat) (J : Inst) (sol : List Rat)
+    (hh : S.heur s.inst h = .ok (J, sol)) :
+    s.step (.heur h) = ({ (afterHeur s h J).ensureVars.1 with sol := some sol }, .done) := by
+  simp [CObj.step, hd, hh, afterHeur]
+
+theorem sstep_dead (s : SObj S) (op : COp) (hd : s.dead = true) : s.step op = (s, .raised .assert) := by
+  simp [SObj.step, hd]
+theorem sstep_numVars (s : SObj S) (hd : s.dead = false) : s.step .numVars = (s, .vars (S.vars s.inst)) := by
+  simp [SObj.step, hd]
+theorem sstep_obj (s : SObj S) (hd : s.dead = false) :
+    s.step .objective = (s, .obj (S.obj s.inst (S.vars s.inst))) := by
+  simp [SObj.step, hd]
+theorem sstep_con (s : SObj S) (hd : s.dead = false) :
+    s.step .constraints = (s, .con (S.con s.inst (S.vars s.inst))) := by
+  simp [SObj.step, hd]
+theorem sstep_heur_err (s : SObj S) (hd : s.dead = false) (h : Rat) (e : Err) (hh : S.heur s.inst h = .error e) :
+    s.step (.heur h) = ({ s with dead := true }, .raised e) := by
+  simp [SObj.step, hd, hh]
+theorem sstep_heur_ok (s : SObj S) (hd : s.dead = false) (h : Rat) (J : Inst) (sol : List Rat)
+    (hh : S.heur s.inst h = .ok (J, sol)) :
+    s.step (.heur h) = ({ s with inst := J, sol := some sol }, .done) := by
+  simp [SObj.step, hd, hh]
+
+
+/-- one call, relative to an invariant `P` of the instance -/
+theorem step_refines_on {P : Inst → Prop} (hS : ResetsWhenChangedOn P S) (s : CObj S) (hc : Coherent s)
+    (hp : P s.inst) (op : COp) :
+    (s.step op).2 = ((abs s).step op).2 ∧ abs (s.step op).1 = ((abs s).step op).1 ∧ Coherent (s.step op).1 ∧
+    P (s.step op).1.inst := by
+  obtain ⟨e2, e1⟩ := ensureVars_spec s hc
+  cases hd : s.dead with
+  | true =>
+    rw [cstep_dead s op hd, sstep_dead (abs s) op hd]
+    exact ⟨rfl, rfl, hc, hp⟩
+  | false =>
+    have hd' : (abs s).dead = false := hd
+    cases op with
+    | numVars =>
+      rw [cstep_numVars s hd, sstep_numVars _ hd', e1, e2]
+      exact ⟨rfl, rfl, ⟨fun v hv => (Option.some.inj hv).symm, hc.obj, hc.con⟩, hp⟩
+    | objective =>
+      rw [sstep_obj _ hd']
+      cases ho : s.obj with
+      | some o =>
+        rw [cstep_obj_some s hd o ho, hc.obj o ho]
+        exact ⟨rfl, rfl, hc, hp⟩
+      | none =>
+        rw [cstep_obj_none s hd ho, e1, e2]
+        exact ⟨rfl, rfl, ⟨fun v hv => (Option.some.inj hv).symm, fun o ho => (Option.some.inj ho).symm, hc.con⟩, hp⟩
+    | constraints =>
+      rw [sstep_con _ hd']
+      cases ho : s.con with
+      | some o =>
+        rw [cstep_con_some s hd o ho, hc.con o ho]
+        exact ⟨rfl, rfl, hc, hp⟩
+      | none =>
+        rw [cstep_con_none s hd ho, e1, e2]
+        exact ⟨rfl, rfl, ⟨fun v hv => (Option.some.inj hv).symm, hc.obj, fun o ho => (Option.some.inj ho).symm⟩, hp⟩
+    | heur h =>
+      cases hh : S.heur s.inst h with
+      | error e =>
+        rw [cstep_heur_err s hd h e hh, sstep_heur_err (abs s) hd' h e hh]
+        exact ⟨rfl, rfl, ⟨hc.vars, hc.obj, hc.con⟩, hp⟩
+      | ok p =>
+        obtain ⟨J, sol⟩ := p
+        rw [cstep_heur_ok s hd h J sol hh, sstep_heur_ok (abs s) hd' h J sol hh]
+        obtain ⟨hpJ, hS'⟩ := hS _ _ _ _ hp hh
+        have hc1 : Coherent (afterHeur s h J) ∧ (afterHeur s h J).inst = J ∧ (afterHeur s h J).dead = s.dead := by
+          unfold afterHeur
+          by_cases hr : S.reset s.inst h = true
+          · rw [if_pos hr]
+            exact ⟨⟨by simp, by simp, by simp⟩, rfl, rfl⟩
+          · have hJ := hS' (by simpa using hr)
+            subst hJ
+            rw [if_neg hr]
+            exact ⟨hc, rfl, rfl⟩
+        obtain ⟨hc1, hJ, hdead⟩ := hc1
+        obtain ⟨_, f1⟩ := ensureVars_spec _ hc1
+        rw [f1]
+        refine ⟨rfl, ?_, ⟨fun v hv => (Option.some.inj hv).symm, hc1.obj, hc1.con⟩, ?_⟩
+        · simp [abs, hJ, hdead]
+        · show P (afterHeur s h J).inst
+          rw [hJ]; exact hpJ
+
+/-- refinement from an arbitrary coherent state, relative to an invariant -/
+theorem run_refines_on {P : Inst → Prop} (hS : ResetsWhenChangedOn P S) (s : CObj S) (hc : Coherent s)
+    (hp : P s.inst) (ops : List COp) :
+    (CObj.run s ops).2 = (SObj.run (abs s) ops).2 ∧ abs (CObj.run s ops).1 = (SObj.run (abs s) ops).1 ∧
+    Coherent (CObj.run s ops).1 ∧ P (CObj.run s ops).1.inst := by
+  induction ops generalizing s with
+  | nil => exact ⟨rfl, rfl, hc, hp⟩
+  | cons op rest ih =>
+    obtain ⟨h1, h2, h3, h4⟩ := step_refines_on hS s hc hp op
+    obtain ⟨i1, i2, i3, i4⟩ := ih (s.step op).1 h3 h4
+    simp only [CObj.run, SObj.run]
+    rw [← h2, h1, i1, i2]
+    exact ⟨rfl, rfl, i3, i4⟩
+
+/-- refinement from an arbitrary coherent state -/
+theorem run_refines (hS : ResetsWhenChanged S) (s : CObj S) (hc : Coherent s) (ops : List COp) :
+    (CObj.run s ops).2 = (SObj.run (abs s) ops).2 ∧ abs (CObj.run s ops).1 = (SObj.run (abs s) ops).1 ∧
+    Coherent (CObj.run s ops).1 := by
+  obtain ⟨h1, h2, h3, _⟩ := run_refines_on (resetsOn_of_resets hS) s hc trivial ops
+  exact ⟨h1, h2, h3⟩
+
+/-- in the specification the final state only depends on the heuristic calls -/
+theorem spec_run_filter (s : SObj S) (ops : List COp) :
+    (SObj.run s ops).1 = (SObj.run s (ops.filter isHeur)).1 := by
+  induction ops generalizing s with
+  | nil => rfl
+  | cons op rest ih =>
+    cases hq : isHeur op with
+    | true =>
+      rw [List.filter_cons_of_pos (by simpa using hq)]
+      simp only [SObj.run]
+      exact ih _
+    | false =>
+      rw [List.filter_cons_of_neg (by simp [hq])]
+      simp only [SObj.run]
+      have hpure : (s.step op).1 = s := by
+        cases hd : s.dead with
+        | true => rw [sstep_dead s op hd]
+        | false =>
+          cases op with
+          | numVars => rw [sstep_numVars s hd]
+          | objective => rw [sstep_obj s hd]
+          | constraints => rw [sstep_con s hd]
+          | heur h => simp [isHeur] at hq
+      rw [hpure]
+      exact ih s
+
+/-! ## the generic statements relative to an invariant (`I` satisfies `P`) -/
+
+theorem refines_on {P : Inst → Prop} (hS : ResetsWhenChangedOn P S) (I : Inst) (hI : P I) (ops : List COp) :
+    (CObj.run ({ inst := I } : CObj S) ops).2 = (SObj.run ({ inst := I } : SObj S) ops).2 ∧
+    abs (CObj.run ({ inst := I } : CObj S) ops).1 = (SObj.run ({ inst := I } : SObj S) ops).1 := by
+  obtain ⟨h1, h2, _⟩ := run_refines_on hS ({ inst := I } : CObj S) (coherent_init I) hI ops
+  exact ⟨h1, h2⟩
+
+theorem queries_irrelevant_on {P : Inst → Prop} (hS : ResetsWhenChangedOn P S) (I : Inst) (hI : P I)
+    (ops later : List COp) :
+    abs (CObj.run ({ inst := I } : CObj S) ops).1 = abs (CObj.run ({ inst := I } : CObj S) (ops.filter isHeur)).1 ∧
+    (CObj.run (CObj.run ({ inst := I } : CObj S) ops).1 later).2
+      = (CObj.run (CObj.run ({ inst := I } : CObj S) (ops.filter isHeur)).1 later).2 := by
+  obtain ⟨_, a1, c1, p1⟩ := run_refines_on hS ({ inst := I } : CObj S) (coherent_init I) hI ops
+  obtain ⟨_, a2, c2, p2⟩ := run_refines_on hS ({ inst := I } : CObj S) (coherent_init I) hI (ops.filter isHeur)
+  have h : abs (CObj.run ({ inst := I } : CObj S) ops).1
+      = abs (CObj.run ({ inst := I } : CObj S) (ops.filter isHeur)).1 := by
+    rw [a1, a2]; exact spec_run_filter _ ops
+  refine ⟨h, ?_⟩
+  rw [(run_refines_on hS _ c1 p1 later).1, (run_refines_on hS _ c2 p2 later).1, h]
+
+/-! ## statements of the task -/
+
+/-- one call: same reply as the specification, coherence preserved, abstraction commutes -/
+theorem step_refines (hS : ResetsWhenChanged S) (s : CObj S) (hc : Coherent s) (op : COp) :
+    (s.step op).2 = ((abs s).step op).2 ∧ abs (s.step op).1 = ((abs s).step op).1 ∧ Coherent (s.step op).1 := by
+  obtain ⟨h1, h2, h3, _⟩ := step_refines_on (resetsOn_of_resets hS) s hc trivial op
+  exact ⟨h1, h2, h3⟩
+
+/-- **refinement**: for every call history (queries in any number and order, any number of heuristic runs)
+    the object's replies are those of the cache-free specification -/
+theorem refines (hS : ResetsWhenChanged S) (I : Inst) (ops : List COp) :
+    (CObj.run ({ inst := I } : CObj S) ops).2 = (SObj.run ({ inst := I } : SObj S) ops).2 ∧
+    abs (CObj.run ({ inst := I } : CObj S) ops).1 = (SObj.run ({ inst := I } : SObj S) ops).1 :=
+  refines_on (resetsOn_of_resets hS) I trivial ops
+
+/-- in the specification a query changes nothing -/
+theorem spec_query_pure (s : SObj S) (op : COp) (hq : isHeur op = false) : (s.step op).1 = s := by
+  cases hd : s.dead with
+  | true => rw [sstep_dead s op hd]
+  | false =>
+    cases op with
+    | numVars => rw [sstep_numVars s hd]
+    | objective => rw [sstep_obj s hd]
+    | constraints => rw [sstep_con s hd]
+    | heur h => simp [isHeur] at hq
+
+/-- coherent objects with the same abstract state give the same replies -/
+theorem replies_eq_of_abs_eq (hS : ResetsWhenChanged S) (s₁ s₂ : CObj S) (h₁ : Coherent s₁) (h₂ : Coherent s₂)
+    (h : abs s₁ = abs s₂) (later : List COp) : (CObj.run s₁ later).2 = (CObj.run s₂ later).2 := by
+  rw [(run_refines hS s₁ h₁ later).1, (run_refines hS s₂ h₂ later).1, h]
+
+/-- **queries issued before (or between) heuristic runs do not alter anything obtained afterwards**: the
+    instance, the stored solution and every later reply are those of the history with all queries removed -/
+theorem queries_irrelevant (hS : ResetsWhenChanged S) (I : Inst) (ops later : List COp) :
+    abs (CObj.run ({ inst := I } : CObj S) ops).1 = abs (CObj.run ({ inst := I } : CObj S) (ops.filter isHeur)).1 ∧
+    (CObj.run (CObj.run ({ inst := I } : CObj S) ops).1 later).2
+      = (CObj.run (CObj.run ({ inst := I } : CObj S) (ops.filter isHeur)).1 later).2 :=
+  queries_irrelevant_on (resetsOn_of_resets hS) I trivial ops later
+
+theorem query_idempotent_on {P : Inst → Prop} (hS : ResetsWhenChangedOn P S) (I : Inst) (hI : P I)
+    (ops : List COp) (q : COp) (hq : isHeur q = false) :
+    let s := (CObj.run ({ inst := I } : CObj S) ops).1
+    (s.step q).2 = ((s.step q).1.step q).2 := by
+  intro s
+  obtain ⟨_, _, hc, hp⟩ := run_refines_on hS ({ inst := I } : CObj S) (coherent_init I) hI ops
+  obtain ⟨h1, h2, h3, h4⟩ := step_refines_on hS s hc hp q
+  obtain ⟨k1, _, _⟩ := step_refines_on hS (s.step q).1 h3 h4 q
+  rw [k1, h2, spec_query_pure (abs s) q hq, h1]
+
+/-- **asking twice gives equal results** (for unchanged problem data) -/
+theorem query_idempotent (hS : ResetsWhenChanged S) (I : Inst) (ops : List COp) (q : COp) (hq : isHeur q = false) :
+    let s := (CObj.run ({ inst := I } : CObj S) ops).1
+    (s.step q).2 = ((s.step q).1.step q).2 :=
+  query_idempotent_on (resetsOn_of_resets hS) I trivial ops q hq
+
+/-! ### the two cached formulations reset their flags at every site that changes the instance -/
+
+theorem arc_resetsWhenChanged : ResetsWhenChanged ArcSpec := by
+  intro I h J sol hh hr
+  change I.makeFeasible h = .ok (J, sol) at hh
+  change I.heurReset = false at hr
+  unfold ArcInst.heurReset ArcInst.greedy at hr
+  unfold ArcInst.makeFeasible at hh
+  cases ht : I.T.head? with
+  | none => simp [ht] at hr
+  | some t0 =>
+    simp only [ht] at hr hh
+    generalize (List.range I.g.estimateMaxVehicles).foldl _ _ = r1 at hr hh
+    cases r1 with
+    | error e => simp at hr
+    | ok p =>
+      obtain ⟨unv, used⟩ := p
+      simp only at hr hh
+      have hu : unv = [] := by simpa using hr
+      subst hu
+      simp only [List.foldl_nil] at hh
+      split at hh
+      · simp at hh
+      · simp only [Except.ok.injEq, Prod.mk.injEq] at hh
+        exact hh.1.symm
+
+theorem arc_refines (I : ArcInst) (ops : List COp) :
+    (CObj.run ({ inst := I } : CObj ArcSpec) ops).2 = (SObj.run ({ inst := I } : SObj ArcSpec) ops).2 :=
+  (refines arc_resetsWhenChanged I ops).1
+
+/-! ### sequence-based formulation
+
+`ResetsWhenChanged SeqSpec` is **false** as an unconditional statement (`seq_not_resetsWhenChanged` below):
+`_ensure_exit_arc` calls `add_arc` with the *names* of the current node and the depot, and `add_arc` files the
+arc under the positions found by looking these names up.  With two nodes of the same name the lookup of the
+current node `cur` lands on an earlier position `i < cur`; if the key `(i, 0)` is already present, the `dict`
+assignment *replaces* that arc (new time/cost) instead of adding one, so the number of arcs is unchanged, the
+reset site is not passed, and the cached objective is stale.  Graphs built through `add_node` have unique names
+(`C15.Inv.nodup`), so the statement is proved relative to the invariant "node names are unique", which the
+heuristic preserves (it never touches the node list). -/
+
+/-- the heuristic keeps the node list; and under unique node names it passes a reset site whenever it
+    changes the instance -/
+theorem seq_makeFeasible_spec (I : SeqInst) (h : Rat) (J : SeqInst) (sol : List Rat) (hn : I.g.names.Nodup)
+    (hh : I.makeFeasible h = .ok (J, sol)) : J.g.nodes = I.g.nodes ∧ (I.heurReset = false → J = I) := by
+  unfold SeqInst.heurReset SeqInst.greedy
+  unfold SeqInst.makeFeasible at hh
+  dsimp only at hh ⊢
+  generalize hr1 : (List.range I.V).foldl _ _ = r1 at hh ⊢
+  cases r1 with
+  | none => simp at hh
+  | some st =>
+    obtain ⟨hext, _⟩ := seqFold_ext (Flavor.seq I.strict) I.L (List.range I.V) (I.g, _, []) st hn
+      (by
+        intro n hn'
+        have := mem_sortByHi hn'
+        simp only [List.mem_map, List.mem_range] at this
+        obtain ⟨a, ha, rfl⟩ := this
+        show a + 1 < I.g.nodes.length
+        omega) hr1
+    simp only at hh
+    generalize hr2 : List.foldl _ _ st.2.1 = r2 at hh
+    cases r2 with
+    | none => simp at hh
+    | some st2 =>
+      simp only at hh
+      have hJ : J = st2.1 := by
+        split at hh
+        · simp at hh
+        · simp only [Except.ok.injEq, Prod.mk.injEq] at hh
+          exact hh.1.symm
+      subst hJ
+      constructor
+      · -- the dummy-vehicle loop only adds arcs
+        have := foldl_bind_rel _ (fun (b b' : SeqInst × List STup) => b'.1.g.nodes = b.1.g.nodes)
+          (fun _ => rfl) (fun a b c h1 h2 => h2.trans h1) ?_ _ _ _ hr2
+        · exact this.trans hext.1
+        · intro b ni b' hb
+          simp only [Option.bind_eq_some_iff, Option.map_eq_some_iff] at hb
+          obtain ⟨g1, h1, g2, h2, rfl⟩ := hb
+          show g2.nodes = b.1.g.nodes
+          have e1 : g1.nodes = b.1.g.nodes := by
+            split_ifs at h1
+            · cases h1; rfl
+            · exact addArcOrFail_nodes h1
+          have e2 : g2.nodes = g1.nodes := by
+            split_ifs at h2
+            · cases h2; rfl
+            · exact addArcOrFail_nodes h2
+          exact e2.trans e1
+      · -- no reset: no arc was added by the regular vehicles and the dummy-vehicle loop did not run
+        intro hr
+        simp only [Bool.or_eq_false_iff, bne_eq_false_iff_eq, Bool.not_eq_false', List.isEmpty_iff] at hr
+        obtain ⟨hlen, hnil⟩ := hr
+        have hg : st.1 = I.g := hext.2.2 hlen
+        rw [hnil, hg] at hr2
+        simp only [List.foldl_nil, Option.some.injEq] at hr2
+        rw [← hr2]
+
+/-- statement CHANGED (see above): relative to the preserved invariant "node names are unique" -/
+theorem seq_resetsWhenChanged : ResetsWhenChangedOn (fun I : SeqInst => I.g.names.Nodup) SeqSpec := by
+  intro I h J sol hn hh
+  obtain ⟨h1, h2⟩ := seq_makeFeasible_spec I h J sol hn hh
+  refine ⟨?_, h2⟩
+  show J.g.names.Nodup
+  unfold Graph.names
+  rw [h1]
+  exact hn
+
+/-- the original, unconditional statement -/
+def seq_resetsWhenChanged_full_statement : Prop := ResetsWhenChanged SeqSpec
+
+/-- statement CHANGED: hypothesis `hI` (unique node names) added; false without it (`seq_not_refines`) -/
+theorem seq_refines (I : SeqInst) (hI : I.g.names.Nodup) (ops : List COp) :
+    (CObj.run ({ inst := I } : CObj SeqSpec) ops).2 = (SObj.run ({ inst := I } : SObj SeqSpec) ops).2 :=
+  (refines_on seq_resetsWhenChanged I hI ops).1
+
+/-- for graphs satisfying the C15 self-consistency invariant (everything built through the graph API) -/
+theorem seq_refines_of_inv (I : SeqInst) (hI : C15.Inv I.g) (ops : List COp) :
+    (CObj.run ({ inst := I } : CObj SeqSpec) ops).2 = (SObj.run ({ inst := I } : SObj SeqSpec) ops).2 :=
+  seq_refines I hI.nodup ops
+
+theorem seq_queries_irrelevant (I : SeqInst) (hI : I.g.names.Nodup) (ops later : List COp) :
+    abs (CObj.run ({ inst := I } : CObj SeqSpec) ops).1
+      = abs (CObj.run ({ inst := I } : CObj SeqSpec) (ops.filter isHeur)).1 ∧
+    (CObj.run (CObj.run ({ inst := I } : CObj SeqSpec) ops).1 later).2
+      = (CObj.run (CObj.run ({ inst := I } : CObj SeqSpec) (ops.filter isHeur)).1 later).2 :=
+  queries_irrelevant_on seq_resetsWhenChanged I hI ops later
+
+theorem seq_query_idempotent (I : SeqInst) (hI : I.g.names.Nodup) (ops : List COp) (q : COp)
+    (hq : isHeur q = false) :
+    let s := (CObj.run ({ inst := I } : CObj SeqSpec) ops).1
+    (s.step q).2 = ((s.step q).1.step q).2 :=
+  query_idempotent_on seq_resetsWhenChanged I hI ops q hq
+
+/-! #### the counterexample: two nodes named "b" -/
+
+def cexNode (s : String) : Node := { name := s, demand := 0, lo := 0, hi := none }
+/-- positions 1 and 2 carry the same name; the arc `(1, 0)` has cost 5 -/
+def cexGraph : Graph :=
+  { nodes := [cexNode "a", cexNode "b", cexNode "b"]
+    arcs := [((0, 0), ⟨"a", "a", 0, 0⟩), ((0, 1), ⟨"a", "b", 1, 1⟩), ((1, 2), ⟨"b", "b", 1, 1⟩),
+             ((1, 0), ⟨"b", "a", 1, 5⟩)] }
+def cexInst : SeqInst := { g := cexGraph, strict := false, V := 1, L := 5, vcost := [0] }
+
+/-- the vehicle visits 1 then 2; `_ensure_exit_arc` at node 2 (no arc `(2, 0)`) looks the name "b" up, lands on
+    position 1 and overwrites the arc `(1, 0)` (cost 5 → 0): same number of arcs, no node left unvisited, so no
+    reset site is passed although the arcs changed -/
+theorem cex_fact : cexInst.heurReset = false ∧
+    (match cexInst.makeFeasible 100 with
+     | .ok (J, _) => J.g.arcs != cexInst.g.arcs
+     | .error _ => false) = true := by
+  decide +kernel
+
+theorem seq_not_resetsWhenChanged : ¬ seq_resetsWhenChanged_full_statement := by
+  intro hS
+  obtain ⟨hr, hm⟩ := cex_fact
+  cases hh : cexInst.makeFeasible 100 with
+  | error e => simp [hh] at hm
+  | ok p =>
+    obtain ⟨J, sol⟩ := p
+    have hJ : J = cexInst := hS cexInst 100 J sol hh hr
+    subst hJ
+    simp [hh] at hm
+
+def outObj : COut SeqSpec → Option (List Rat × List (Nat × Nat × Rat))
+  | .obj o => some o
+  | _ => none
+
+/-- on that instance the object really answers the second `objective` query from the stale cache -/
+theorem seq_not_refines :
+    (CObj.run ({ inst := cexInst } : CObj SeqSpec) [.objective, .heur 100, .objective]).2
+      ≠ (SObj.run ({ inst := cexInst } : SObj SeqSpec) [.objective, .heur 100, .objective]).2 := by
+  intro h
+  have h2 := congrArg (fun l => l[2]?.bind outObj) h
+  revert h2
+  decide +kernel
 
 end Vrp.C14
